@@ -5,6 +5,7 @@ CONSTANT NTrees = 6
 CONSTANT NKw = 5
 CONSTANT WithPut = TRUE
 CONSTANT Filter = FALSE
+CONSTANT Rand = TRUE
 INIT Init
 NEXT Next
 INVARIANT CallerMapsUnchanged
